@@ -20,7 +20,7 @@ EVAL_CALLS = [
     ('eval_param',       "eval('b * 2')", [], ['b']),
     ('eval_global',      "eval('G0 + 1')", []),
     ('eval_builtin',     "eval('len([1, 2])')", []),
-    ('eval_body_local',  "eval('x + 1')", [], ['x']),
+    ('eval_body_local',  "eval('x + 1')", [], []),      # x is bound by the body itself
     ('eval_compiled',    "eval(CODE0)", []),
     ('eval_g_only',      "eval('u', {'u': 1000})", [('obj',)]),
     ('eval_g_only_glob', "eval('G0', {'G0': 7})", [('obj',)]),
@@ -33,7 +33,7 @@ EVAL_CALLS = [
 ]
 LOCALS_CALLS = [
     ('locals_get',  "locals()['u']", None, ['u']),
-    ('locals_keys', "sorted(k for k in locals() if k in ('a', 'b', 'u', 'v', 'out', 'x'))", None, ['a', 'b', 'u', 'v', 'out', 'x']),
+    ('locals_keys', "sorted(k for k in locals() if k in ('a', 'b', 'u', 'v', 'out'))", None, ['a', 'b', 'u', 'v', 'out']),
     ('locals_vals', "[locals().get(k, 'MISSING') for k in ('a', 'b', 'u', 'v')]", None, ['a', 'b', 'u', 'v']),
 ]
 GLOBALS_CALLS = [
@@ -94,6 +94,32 @@ def method_program(n, nest, call, decorator=None):
             'entry': 'm', 'cls': 'Der_%d' % n, 'args': [[1], [2, 9]], 'extra': None, 'needs': []}
 
 
+# dynamic reads placed AFTER a functionalised block that assigns x; `live` adds a static read of x after the block
+AFTER_CALLS = [
+    ('evalafter_dyn',    "eval('x')", False),
+    ('evalafter_live',   "eval('x')", True),
+    ('localsafter_dyn',  "locals()['x']", False),
+    ('localsafter_live', "locals()['x']", True),
+    ('evalafter_expr',   "eval('x + u')", False),
+]
+
+
+def after_program(n, nest, call):
+    name, expr, live = call
+    lines = ['def f_%d(a, b):' % n, '    u = a + 10', '    out = []', '    x = -1']
+    o, ind = _open(nest)
+    lines += o
+    lines.append(ind + 'x = u + %d' % len(nest))
+    if live:
+        lines.append('    y = x')
+    lines.append('    out.append(%s)' % expr)
+    if live:
+        lines.append('    out.append(y)')
+    lines.append('    return out')
+    return {'name': 'f_%d' % n, 'kind': 'after', 'call': name, 'nest': list(nest), 'src': '\n'.join(lines) + '\n',
+            'entry': 'f_%d' % n, 'cls': None, 'args': [[1, 5], [2, 7]], 'extra': None, 'needs': ['x'], 'static_read': live}
+
+
 def all_nests(max_depth):
     out = [()]
     for d in range(1, max_depth + 1):
@@ -120,6 +146,14 @@ def frame_programs(tier, rng):
         deep = deep[off::k]
     for ne, (kind, c) in shallow + deep:
         progs.append(function_program(n, ne, c) if kind == 'f' else method_program(n, ne, c))
+        n += 1
+    after = [(ne, c) for ne in nests if ne for c in AFTER_CALLS]
+    space += len(after)
+    if tier == 'quick':
+        off = rng.randrange(2)
+        after = [x for x in after if len(x[0]) == 1] + [x for x in after if len(x[0]) > 1][off::2]
+    for ne, c in after:
+        progs.append(after_program(n, ne, c))
         n += 1
     return progs, {'space': space, 'cap': cap, 'generated': len(progs), 'exhaustive': len(progs) == space, 'max_depth': max_depth}
 
